@@ -88,11 +88,12 @@ def nextUpdate (last : Option Update) (b t nj ng : Nat) : Update :=
 theorem follows_nextUpdate (last : Option Update) (b t nj ng : Nat) : Follows last (nextUpdate last b t nj ng) := by
   cases last <;> simp [Follows, nextUpdate]
 
-/-- the outcomes of `_create_batch_update`: nothing changes (error, or the token is known: the stored update id is
-answered), or one row is appended to `batch_updates` -/
+/-- the outcomes of `_create_batch_update`: nothing changes (error, or the token is known to the owner: the stored update
+id is answered), or one row is appended to `batch_updates` -/
 theorem createUpdate_cases (s : State) (b t nj ng usr : Nat) :
     (∃ o, createUpdate s b t nj ng usr = (s, o) ∧
-      (∀ u, s.updates.find? (fun u => u.batch = b ∧ u.token = t) = some u → ¬ (nj = 0 ∧ ng = 0) → o = .ok u.id)) ∨
+      (∀ u, s.updates.find? (fun u => u.batch = b ∧ u.token = t ∧ ownedBy s b usr) = some u → ¬ (nj = 0 ∧ ng = 0) →
+        o = .ok u.id)) ∨
     (∃ last : Option Update,
       createUpdate s b t nj ng usr =
         ({ s with updates := s.updates ++ [nextUpdate last b t nj ng] }, .ok (nextUpdate last b t nj ng).id) ∧
@@ -100,44 +101,57 @@ theorem createUpdate_cases (s : State) (b t nj ng usr : Nat) :
       s.updates.find? (fun u => u.batch = b ∧ u.token = t) = none ∧ ¬ (nj = 0 ∧ ng = 0) ∧
       (∃ bt, findBatch s b = some bt ∧ bt.user = usr ∧ bt.deleted = false) ∧ s.cancelled.contains (b, 0) = false) := by
   unfold createUpdate
-  split_ifs with h0 hc
-  · exact Or.inl ⟨_, rfl, fun _ _ h => absurd h0 h⟩
-  · left
+  by_cases h0 : nj = 0 ∧ ng = 0
+  · rw [if_pos h0]; exact Or.inl ⟨_, rfl, fun _ _ h => absurd h0 h⟩
+  rw [if_neg h0]
+  split
+  · rename_i u hu; exact Or.inl ⟨_, rfl, fun v hv _ => by rw [hu] at hv; cases hv; rfl⟩
+  · rename_i hfind
+    have hno : ∀ (o : Out) (v : Update), s.updates.find? (fun u => u.batch = b ∧ u.token = t ∧ ownedBy s b usr) = some v →
+        ¬ (nj = 0 ∧ ng = 0) → o = .ok v.id := fun o v hv => by rw [hfind] at hv; cases hv
     split
-    · rename_i u hu; exact ⟨_, rfl, fun v hv _ => by rw [hu] at hv; cases hv; rfl⟩
-    · rename_i hfind
-      split
-      · exact ⟨_, rfl, fun v hv => by rw [hfind] at hv; cases hv⟩
-      · split_ifs <;> exact ⟨_, rfl, fun v hv => by rw [hfind] at hv; cases hv⟩
-  · split
-    · rename_i u hu; exact Or.inl ⟨_, rfl, fun v hv _ => by rw [hu] at hv; cases hv; rfl⟩
-    · rename_i hfind
-      split
-      · exact Or.inl ⟨_, rfl, fun v hv => by rw [hfind] at hv; cases hv⟩
-      · rename_i bt hbt
-        split_ifs with hu
-        · exact Or.inl ⟨_, rfl, fun v hv => by rw [hfind] at hv; cases hv⟩
-        · right
-          dsimp only
-          generalize hlast : List.foldl _ none (List.filter _ s.updates) = last
-          refine ⟨last, ?_, ?_, hfind, h0, ⟨bt, hbt, ?_, ?_⟩, by simpa using hc⟩
-          · cases last <;> rfl
-          · intro hch
-            rw [← hlast]
-            exact foldl_last _ (fun _ => rfl) (fun _ _ => rfl) _ none hch
-          · simp only [not_or, ne_eq, Decidable.not_not] at hu; exact hu.1
-          · simp only [not_or, ne_eq, Decidable.not_not] at hu; simpa using hu.2
+    · exact Or.inl ⟨_, rfl, hno _⟩
+    · rename_i bt hbt
+      by_cases hu : bt.user ≠ usr ∨ bt.deleted = true
+      · rw [if_pos hu]; exact Or.inl ⟨_, rfl, hno _⟩
+      rw [if_neg hu]
+      by_cases hc : s.cancelled.contains (b, 0) = true
+      · rw [if_pos hc]; exact Or.inl ⟨_, rfl, hno _⟩
+      rw [if_neg hc]
+      right
+      simp only [not_or, ne_eq, Decidable.not_not, Bool.not_eq_true] at hu
+      have hown : ownedBy s b usr = true := by simp [ownedBy, hbt, hu.1, hu.2]
+      have hfind' : s.updates.find? (fun u => u.batch = b ∧ u.token = t) = none := by
+        rw [List.find?_eq_none] at hfind ⊢
+        intro x hx; have := hfind x hx; simpa [hown] using this
+      dsimp only
+      generalize hlast : List.foldl _ none (List.filter _ s.updates) = last
+      refine ⟨last, ?_, ?_, hfind', h0, ⟨bt, hbt, hu.1, hu.2⟩, by simpa using hc⟩
+      · cases last <;> rfl
+      · intro hch
+        rw [← hlast]
+        exact foldl_last _ (fun _ => rfl) (fun _ _ => rfl) _ none hch
 
 theorem createUpdate_idem (s : State) (b t nj ng usr : Nat) :
     createUpdate (createUpdate s b t nj ng usr).1 b t nj ng usr =
       ((createUpdate s b t nj ng usr).1, (createUpdate s b t nj ng usr).2) := by
-  rcases createUpdate_cases s b t nj ng usr with ⟨o, e, _⟩ | ⟨last, e, _, hfind, h0, _, _⟩
+  rcases createUpdate_cases s b t nj ng usr with ⟨o, e, _⟩ | ⟨last, e, _, hfind, h0, ⟨bt, hbt, hb1, hb2⟩, _⟩
   · rw [e]; exact e
   · rw [e]
-    have h2 : (s.updates ++ [nextUpdate last b t nj ng]).find? (fun u => u.batch = b ∧ u.token = t) =
-        some (nextUpdate last b t nj ng) := by
-      rw [List.find?_append, hfind]
-      cases last <;> simp [nextUpdate]
+    have hnb : (nextUpdate last b t nj ng).batch = b ∧ (nextUpdate last b t nj ng).token = t := by
+      cases last <;> exact ⟨rfl, rfl⟩
+    generalize nextUpdate last b t nj ng = nu at *
+    have hown : ownedBy { s with updates := s.updates ++ [nu] } b usr = true := by
+      have : findBatch { s with updates := s.updates ++ [nu] } b = some bt := hbt
+      simp [ownedBy, this, hb1, hb2]
+    have h2 : (s.updates ++ [nu]).find?
+        (fun u => u.batch = b ∧ u.token = t ∧ ownedBy { s with updates := s.updates ++ [nu] } b usr) = some nu := by
+      have h1 : s.updates.find? (fun u => u.batch = b ∧ u.token = t ∧
+          ownedBy { s with updates := s.updates ++ [nu] } b usr) = none := by
+        rw [List.find?_eq_none] at hfind ⊢
+        intro x hx; have := hfind x hx; simp only [hown]; simpa using this
+      rw [List.find?_append, h1]
+      simp [hnb.1, hnb.2, hown]
     simp only [createUpdate, h0, if_false, h2]
 
 /-! ## `insertGroups` -/
@@ -150,6 +164,54 @@ theorem insertGroup_eq {s s' : State} {b upd gid parent : Nat} (h : insertGroup 
   simp only [Option.some.injEq] at h
   exact ⟨h.symm, by simpa using h1, by simpa using h2, by simpa using h3⟩
 
+/-- the ancestor list of a group row is duplicate-free and bounded by the group id -/
+def RowAncOK (g : Group) : Prop := g.ancestors.Nodup ∧ ∀ a ∈ g.ancestors, a ≤ g.id
+
+/-- ancestor lists are duplicate-free and bounded by the group id -/
+def AncOK (s : State) : Prop := ∀ g ∈ s.groups, RowAncOK g
+
+theorem ancestorsOf_le {s : State} (h : AncOK s) (b g : Nat) : ∀ a ∈ ancestorsOf s b g, a ≤ g := by
+  unfold ancestorsOf
+  cases hf : findGroup s b g with
+  | none => intro a ha; simp at ha
+  | some x =>
+    unfold findGroup at hf
+    have hm := List.mem_of_find?_eq_some hf
+    have hk := List.find?_some hf
+    simp only [decide_eq_true_eq] at hk
+    intro a ha
+    rw [← hk.2]; exact (h x hm).2 a ha
+
+theorem ancestorsOf_nodup {s : State} (h : AncOK s) (b g : Nat) : (ancestorsOf s b g).Nodup := by
+  unfold ancestorsOf
+  cases hf : findGroup s b g with
+  | none => simp
+  | some x =>
+    unfold findGroup at hf
+    exact (h x (List.mem_of_find?_eq_some hf)).1
+
+theorem ancOK_insertGroup {s s' : State} {b upd gid parent : Nat} (h : AncOK s)
+    (hi : insertGroup s b upd gid parent = some s') :
+    RowAncOK (Group.mk b gid (gid :: ancestorsOf s b parent) (some upd) .complete 0 0 0 0 0) ∧ AncOK s' := by
+  obtain ⟨e, -, -, hlt⟩ := insertGroup_eq hi
+  have hrow : RowAncOK (Group.mk b gid (gid :: ancestorsOf s b parent) (some upd) .complete 0 0 0 0 0) := by
+    refine ⟨?_, ?_⟩
+    · show (gid :: ancestorsOf s b parent).Nodup
+      rw [List.nodup_cons]
+      refine ⟨fun hm => ?_, ancestorsOf_nodup h b parent⟩
+      have := ancestorsOf_le h b parent gid hm; omega
+    · intro a ha
+      show a ≤ gid
+      rcases List.mem_cons.mp ha with rfl | ha
+      · exact Nat.le_refl _
+      · have := ancestorsOf_le h b parent a ha; omega
+  refine ⟨hrow, ?_⟩
+  rw [e]
+  intro g hg
+  rcases List.mem_append.mp hg with hg | hg
+  · exact h g hg
+  · rw [List.mem_singleton.mp hg]; exact hrow
+
 /-- rows a group bunch of update `upd` may add -/
 def NewGroup (b upd : Nat) (g : Group) : Prop :=
   g.batch = b ∧ g.update = some upd ∧ g.state = .complete ∧ g.nJobs = 0 ∧ g.nCompleted = 0 ∧ g.id ∈ g.ancestors
@@ -157,9 +219,10 @@ def NewGroup (b upd : Nat) (g : Group) : Prop :=
 theorem foldGroups_eq (b upd : Nat) (u : Update) (specs : List GroupSpec) :
     ∀ (s s' : State), specs.foldl (groupSpecStep b upd u) (some s) = some s' →
       ∃ new, s' = { s with groups := s.groups ++ new } ∧ (∀ g ∈ new, NewGroup b upd g) ∧
-        new.map (·.id) = specs.map (fun sp => u.startGroup + sp.relId - 1) := by
+        new.map (·.id) = specs.map (fun sp => u.startGroup + sp.relId - 1) ∧
+        (AncOK s → ∀ g ∈ new, RowAncOK g) := by
   induction specs with
-  | nil => intro s s' h; simp at h; subst h; exact ⟨[], by simp, by simp, rfl⟩
+  | nil => intro s s' h; simp at h; subst h; exact ⟨[], by simp, by simp, rfl, by simp⟩
   | cons sp rest ih =>
     intro s s' h
     simp only [List.foldl_cons] at h
@@ -170,15 +233,20 @@ theorem foldGroups_eq (b upd : Nat) (u : Update) (specs : List GroupSpec) :
       obtain ⟨par, hpar⟩ : ∃ par, insertGroup s b upd (u.startGroup + sp.relId - 1) par = some mid :=
         ⟨_, by simpa [groupSpecStep] using hmid⟩
       obtain ⟨e1, -⟩ := insertGroup_eq hpar
-      obtain ⟨new, e2, hn, hid⟩ := ih mid s' h
+      obtain ⟨new, e2, hn, hid, hanc⟩ := ih mid s' h
       refine ⟨Group.mk b (u.startGroup + sp.relId - 1) ((u.startGroup + sp.relId - 1) :: ancestorsOf s b par) (some upd)
-        .complete 0 0 0 0 0 :: new, ?_, ?_, ?_⟩
+        .complete 0 0 0 0 0 :: new, ?_, ?_, ?_, ?_⟩
       · rw [e2, e1]; simp
       · intro g hg
         rcases List.mem_cons.mp hg with rfl | hg
         · exact ⟨rfl, rfl, rfl, rfl, rfl, by simp⟩
         · exact hn g hg
       · simp [hid]
+      · intro ha g hg
+        obtain ⟨hrow, hmid⟩ := ancOK_insertGroup ha hpar
+        rcases List.mem_cons.mp hg with rfl | hg
+        · exact hrow
+        · exact hanc hmid g hg
 
 theorem foldl_max_ge (l : List Group) : ∀ (m0 : Nat), m0 ≤ l.foldl (fun m g => max m g.id) m0 ∧
     ∀ g ∈ l, g.id ≤ l.foldl (fun m g => max m g.id) m0 := by
@@ -206,7 +274,8 @@ theorem insertGroups_cases (s : State) (b upd user : Nat) (specs : List GroupSpe
       bt.user = user ∧ bt.deleted = false ∧ u.committed = false ∧
       u.startGroup + first.relId - 1 = maxGroupId s b + 1 ∧
       insertGroups s b upd user specs = ({ s with groups := s.groups ++ new }, .ok 0) ∧
-      (∀ g ∈ new, NewGroup b upd g) ∧ new.map (·.id) = specs.map (fun sp => u.startGroup + sp.relId - 1)) := by
+      (∀ g ∈ new, NewGroup b upd g) ∧ new.map (·.id) = specs.map (fun sp => u.startGroup + sp.relId - 1) ∧
+      (AncOK s → ∀ g ∈ new, RowAncOK g)) := by
   unfold insertGroups
   split
   · exact Or.inl ⟨_, rfl⟩
@@ -220,10 +289,10 @@ theorem insertGroups_cases (s : State) (b upd user : Nat) (specs : List GroupSpe
       · dsimp only
         split
         · rename_i s' hr
-          obtain ⟨new, e, hn, hid⟩ := foldGroups_eq b upd u _ s s' hr
+          obtain ⟨new, e, hn, hid, hanc⟩ := foldGroups_eq b upd u _ s s' hr
           simp only [not_or, ne_eq, Decidable.not_not] at h1
           exact Or.inr ⟨first, rest, u, bt, new, rfl, hu, hbt, h1.1, by simpa using h1.2, by simpa using h2,
-            by simpa using h3, by rw [e], hn, hid⟩
+            by simpa using h3, by rw [e], hn, hid, hanc⟩
         · exact Or.inl ⟨_, rfl⟩
     · exact Or.inl ⟨_, rfl⟩
 
@@ -233,7 +302,7 @@ theorem insertGroups_resend (s : State) (b upd user : Nat) (specs : List GroupSp
     (hok : (insertGroups s b upd user specs).2 = .ok 0) :
     insertGroups (insertGroups s b upd user specs).1 b upd user specs =
       ((insertGroups s b upd user specs).1, .err "out-of-order") := by
-  rcases insertGroups_cases s b upd user specs with ⟨e, he⟩ | ⟨first, rest, u, bt, new, hs, hu, hbt, h1, h2, h3, h4, e, hn, hid⟩
+  rcases insertGroups_cases s b upd user specs with ⟨e, he⟩ | ⟨first, rest, u, bt, new, hs, hu, hbt, h1, h2, h3, h4, e, hn, hid, -⟩
   · rw [he] at hok; cases hok
   · rw [e]
     subst hs
@@ -1249,5 +1318,449 @@ theorem staging_complete (s : State) (b j : Nat) (att inst : Option Nat) (ns : J
       | exact (calm_completePrep s b j att inst st e r d job).staging
       | exact ((calm_updateJobs _ _ _).staging.trans (staging_completeJob _ b j att ns job)).trans
           (calm_completePrep s b j att inst st e r d job).staging
+
+/-! ### what `commit_batch_update` does -/
+
+def stagedIcs (s : State) (b upd : Nat) : List Nat :=
+  (s.ctr.filterMap fun e => match e.1 with
+      | .sJobs b' u' g' ic => if b' = b ∧ u' = upd ∧ g' = 0 then some ic else none
+      | _ => none).eraseDups
+
+def stagedRoot (s : State) (b upd : Nat) : Int := ((stagedIcs s b upd).map fun ic => get s.ctr (.sJobs b upd 0 ic)).sum
+
+def commitGroup (s : State) (b upd : Nat) (g : Group) : Group :=
+  if g.batch = b ∧ hasRow s b upd g.id then
+    { g with state := if gsum s b upd g.id > 0 then .running else g.state, nJobs := g.nJobs + gsum s b upd g.id }
+  else g
+
+def commitBatch (b : Nat) (n : Nat) (x : Batch) : Batch :=
+  if x.id = b then { x with state := .running, nJobs := x.nJobs + n } else x
+
+theorem commitUpdate_effect (s : State) (b upd : Nat) (u : Update) (hu : findUpdate s b upd = some u)
+    (hc : u.committed = false) :
+    (stagedRoot s b upd ≠ u.nJobs → commitUpdate s b upd = (s, .ok 1)) ∧
+    (stagedRoot s b upd = u.nJobs → (commitUpdate s b upd).2 = .ok 0 ∧
+      (commitUpdate s b upd).1.updates = s.updates.map (markCommitted b upd) ∧
+      (u.nJobs = 0 → (commitUpdate s b upd).1.groups = s.groups ∧ (commitUpdate s b upd).1.batches = s.batches ∧
+        (commitUpdate s b upd).1.ctr = s.ctr ∧ (commitUpdate s b upd).1.jobs = s.jobs) ∧
+      (u.nJobs ≠ 0 → (commitUpdate s b upd).1.groups = s.groups.map (commitGroup s b upd) ∧
+        (commitUpdate s b upd).1.batches = s.batches.map (commitBatch b u.nJobs) ∧
+        stagingLog (commitUpdate s b upd).1 = stagingLog s)) := by
+  unfold commitUpdate
+  rw [hu]
+  dsimp only
+  rw [if_neg (by simp [hc])]
+  have hnoSt : ∀ (user : Nat) (ics : List Nat) (e : CKey × Int), e ∈ (ics.flatMap fun ic =>
+      [(CKey.uReady user ic, get s.ctr (.sReady b upd 0 ic)),
+       (CKey.uReadyCores user ic, get s.ctr (.sReadyCores b upd 0 ic))]) → isSJ e.1 = false := by
+    intro user ics e he
+    simp only [List.mem_flatMap, List.mem_cons, List.not_mem_nil, or_false] at he
+    obtain ⟨ic, -, h | h⟩ := he <;> rw [h] <;> rfl
+  split_ifs with h1 h2 h3
+  · exact ⟨fun _ => rfl, fun he => absurd he h1⟩
+  · refine ⟨fun hne => absurd hne h1, fun _ => ⟨rfl, rfl, fun _ => ⟨rfl, rfl, rfl, rfl⟩, fun hn => absurd h2 hn⟩⟩
+  · refine ⟨fun hne => absurd hne h1, fun _ => ⟨rfl, rfl, fun h0 => absurd h0 h2, fun _ => ⟨rfl, rfl, ?_⟩⟩⟩
+    exact stagingLog_addMany rfl (hnoSt _ _)
+  · refine ⟨fun hne => absurd hne h1, fun _ => ⟨rfl, rfl, fun h0 => absurd h0 h2, fun _ => ⟨rfl, rfl, ?_⟩⟩⟩
+    exact (calm_updateJobs _ _ _).staging.trans (stagingLog_addMany rfl (hnoSt _ _))
+
+/-! ### group rows under every transaction -/
+
+def tallyRow (b : Nat) (anc : List Nat) (ns : JState) (x : Group) : Group :=
+  if x.batch = b ∧ anc.contains x.id then tally ns x else x
+
+def markRow (b : Nat) (anc : List Nat) (x : Group) : Group :=
+  if x.batch = b ∧ anc.contains x.id ∧ x.nCompleted = x.nJobs then { x with state := .complete } else x
+
+theorem groupFrame_tallyRow (b : Nat) (anc : List Nat) (ns : JState) : GroupFrame (tallyRow b anc ns) := by
+  intro x; unfold tallyRow; split_ifs
+  · exact ⟨rfl, rfl, rfl, rfl⟩
+  · exact ⟨rfl, rfl, rfl, rfl⟩
+
+theorem ancestorsOf_of_groups_map {s s' : State} {F : Group → Group} (hF : GroupFrame F) (e : s'.groups = s.groups.map F)
+    (b g : Nat) : ancestorsOf s' b g = ancestorsOf s b g := by
+  unfold ancestorsOf findGroup
+  rw [e]
+  cases h : s.groups.find? (fun x => x.batch = b ∧ x.id = g) with
+  | none =>
+    have : (s.groups.map F).find? (fun x => x.batch = b ∧ x.id = g) = none := by
+      rw [List.find?_eq_none] at h ⊢
+      intro y hy
+      rw [List.mem_map] at hy
+      obtain ⟨x, hx, rfl⟩ := hy
+      have := h x hx
+      simpa [(hF x).1, (hF x).2.1] using this
+    rw [this]
+  | some x =>
+    have := find?_map_append_some (fun x => decide (x.batch = b ∧ x.id = g)) F
+      (by intro y; simp [(hF y).1, (hF y).2.1]) s.groups [] x h
+    rw [List.append_nil] at this
+    rw [this]
+    exact (hF x).2.2.1
+
+/-- the group rows after `mark_job_complete` took its main branch for a job of group `g` -/
+theorem completeJob_groups (s : State) (b j : Nat) (att : Option Nat) (ns : JState) (job : Job) :
+    (completeJob s b j att ns job).groups =
+      (s.groups.map (tallyRow b (ancestorsOf s b job.group) ns)).map (markRow b (ancestorsOf s b job.group)) := by
+  have h2 : ancestorsOf (completeBatchIfDone (tallyGroups (updateJobs s (isJob b j) (setStateAttempt ns att)) b job.group ns) b)
+      b job.group = ancestorsOf s b job.group :=
+    ancestorsOf_of_groups_map (s := s) (groupFrame_tallyRow b (ancestorsOf s b job.group) ns) rfl b job.group
+  unfold completeJob markGroupsComplete
+  dsimp only
+  rw [h2]
+  rfl
+
+/-- `job_groups` after `mark_job_complete`: unchanged, or tallied and marked along the ancestors of the job's group -/
+theorem complete_groups (s : State) (b j : Nat) (att inst : Option Nat) (ns : JState) (st e : Option Int) (r : String)
+    (d : Nat) :
+    (complete s b j att inst ns st e r d).1.groups = s.groups ∨
+    ∃ g, (complete s b j att inst ns st e r d).1.groups =
+      (s.groups.map (tallyRow b (ancestorsOf s b g) ns)).map (markRow b (ancestorsOf s b g)) := by
+  unfold complete
+  split
+  · exact Or.inl rfl
+  · rename_i job _
+    have hp := (calm_completePrep s b j att inst st e r d job).groups
+    split_ifs
+    all_goals first
+      | exact Or.inl rfl
+      | exact Or.inl hp
+      | skip
+    right
+    refine ⟨job.group, ?_⟩
+    rw [updateJobs_groups, completeJob_groups]
+    have ha : ancestorsOf (completePrep s b j att inst st e r d job) b job.group = ancestorsOf s b job.group := by
+      unfold ancestorsOf findGroup; rw [hp]
+    rw [ha, hp]
+
+/-- where `job_groups` rows come from after one transaction -/
+theorem groups_step (s : State) (op : Op) :
+    (step s op).1.groups = s.groups ∨
+    (∃ new, (step s op).1.groups = s.groups ++ new ∧ (∀ g ∈ new, g.nJobs = 0 ∧ g.state = .complete) ∧
+      (AncOK s → ∀ g ∈ new, RowAncOK g)) ∨
+    (∃ b g ns, (step s op).1.groups = (s.groups.map (tallyRow b (ancestorsOf s b g) ns)).map (markRow b (ancestorsOf s b g))) ∨
+    (∃ b upd u, op = .commitUpdate b upd ∧ findUpdate s b upd = some u ∧ u.committed = false ∧ u.nJobs ≠ 0 ∧
+      stagedRoot s b upd = u.nJobs ∧ (step s op).1.groups = s.groups.map (commitGroup s b upd)) := by
+  cases op with
+  | createBatch u bp t =>
+    simp only [step]
+    unfold createBatch
+    split
+    · exact Or.inl rfl
+    · exact Or.inr (Or.inl ⟨_, rfl, by intro g hg; rw [List.mem_singleton.mp hg]; exact ⟨rfl, rfl⟩,
+        by intro _ g hg; rw [List.mem_singleton.mp hg]; exact ⟨by simp, by simp⟩⟩)
+  | createUpdate b t nj ng u => exact Or.inl (calm_createUpdate s b t nj ng u).groups
+  | insertGroups b u usr specs =>
+    simp only [step]
+    rcases insertGroups_cases s b u usr specs with ⟨e, he⟩ | ⟨_, _, _, _, new, _, _, _, _, _, _, _, e, hn, _, hanc⟩
+    · rw [he]; exact Or.inl rfl
+    · rw [e]; exact Or.inr (Or.inl ⟨new, rfl, fun g hg => ⟨(hn g hg).2.2.2.1, (hn g hg).2.2.1⟩, hanc⟩)
+  | insertJobs b u usr specs =>
+    simp only [step]
+    rcases insertJobs_cases s b u usr specs with ⟨o, e⟩ | ⟨_, _, _, _, _, _, _, _, e⟩ <;> rw [e] <;> exact Or.inl rfl
+  | commitUpdate b upd =>
+    simp only [step]
+    rcases commitUpdate_cases s b upd with ⟨o, e, _⟩ | ⟨u, hu, hc, ho, _⟩
+    · rw [e]; exact Or.inl rfl
+    · obtain ⟨h1, h2⟩ := commitUpdate_effect s b upd u hu hc
+      by_cases hst : stagedRoot s b upd = u.nJobs
+      · obtain ⟨-, -, h0, hn⟩ := h2 hst
+        by_cases hz : u.nJobs = 0
+        · exact Or.inl (h0 hz).1
+        · exact Or.inr (Or.inr (Or.inr ⟨b, upd, u, rfl, hu, hc, hz, hst, (hn hz).1⟩))
+      · rw [h1 hst]; exact Or.inl rfl
+  | cancelGroup b g => exact Or.inl (calm_cancelGroup s b g).groups
+  | deleteBatch b => exact Or.inl (calm_deleteBatch s b).groups
+  | newInstance n c p => exact Or.inl (calm_newInstance s n c p).groups
+  | activate n => exact Or.inl (calm_activate s n).groups
+  | deactivate n r ts d => exact Or.inl (calm_deactivate s n r ts d).groups
+  | markDeleted n => exact Or.inl (calm_markDeleted s n).groups
+  | schedule b j a i => exact Or.inl (calm_schedule s b j a i).groups
+  | creating b j a i ts d => exact Or.inl (calm_startLike s b j a i ts d _ _).groups
+  | started b j a i ts d => exact Or.inl (calm_startLike s b j a i ts d _ _).groups
+  | complete b j a i ns st e r d =>
+    rcases complete_groups s b j a i ns st e r d with h | ⟨g, h⟩
+    · exact Or.inl h
+    · exact Or.inr (Or.inr (Or.inl ⟨b, g, ns, h⟩))
+  | unschedule b j a i e r d => exact Or.inl (calm_unschedule s b j a i e r d).groups
+  | addResources b j a res d => exact Or.inl (calm_addResources s b j a res d).groups
+  | heartbeat atts ts d => exact Or.inl rfl
+  | cleanupStaging => exact Or.inl rfl
+  | cleanupCancellable => exact Or.inl rfl
+  | compact => exact Or.inl rfl
+
+/-! ### the completion flag -/
+
+/-- for a group that has jobs, `state = 'complete'` says exactly `n_completed = n_jobs` -/
+def FlagOK (s : State) : Prop := ∀ g ∈ s.groups, g.nJobs > 0 → (g.state = .complete ↔ g.nCompleted = g.nJobs)
+
+/-- no group has counted more completions than it has jobs -/
+def TalliesBounded (s : State) : Prop := ∀ g ∈ s.groups, g.nCompleted ≤ g.nJobs
+
+theorem flagOK_init : FlagOK init := by intro g hg; simp [init] at hg
+
+theorem flagOK_step (s : State) (op : Op) (h : FlagOK s) (hb : TalliesBounded s) (hb' : TalliesBounded (step s op).1)
+    (hg : ∀ b upd g, op = .commitUpdate b upd → 0 ≤ gsum s b upd g) : FlagOK (step s op).1 := by
+  rcases groups_step s op with e | ⟨new, e, hn, -⟩ | ⟨b, g, ns, e⟩ | ⟨b, upd, u, hop, -, -, -, -, e⟩
+  · intro x hx; rw [e] at hx; exact h x hx
+  · intro x hx hpos
+    rw [e, List.mem_append] at hx
+    rcases hx with hx | hx
+    · exact h x hx hpos
+    · rw [(hn x hx).1] at hpos; exact absurd hpos (by decide)
+  · intro x' hx' hpos
+    have hbx := hb' x' hx'
+    rw [e, List.map_map, List.mem_map] at hx'
+    obtain ⟨x, hx, rfl⟩ := hx'
+    have hfx := h x hx
+    have hbx0 := hb x hx
+    simp only [Function.comp] at hpos hbx ⊢
+    unfold markRow tallyRow at hpos hbx ⊢
+    by_cases h1 : x.batch = b ∧ (ancestorsOf s b g).contains x.id = true
+    · simp only [h1, and_self, if_true, tally, true_and] at hpos hbx ⊢
+      by_cases h2 : x.nCompleted + 1 = x.nJobs
+      · simp [h2]
+      · simp only [h2, if_false] at hpos hbx ⊢
+        have := hfx hpos
+        constructor
+        · intro hc; have := this.mp hc; omega
+        · intro hc; first | exact absurd hc h2 | exact hc.elim
+    · simp only [h1, if_false] at hpos hbx ⊢
+      have h1' : ¬ (x.batch = b ∧ (ancestorsOf s b g).contains x.id = true ∧ x.nCompleted = x.nJobs) :=
+        fun hh => h1 ⟨hh.1, hh.2.1⟩
+      simp only [h1', if_false] at hpos ⊢
+      exact hfx hpos
+  · intro x' hx' hpos
+    rw [e, List.mem_map] at hx'
+    obtain ⟨x, hx, rfl⟩ := hx'
+    have hfx := h x hx
+    have hbx0 := hb x hx
+    have hg0 := hg b upd x.id hop
+    unfold commitGroup at hpos ⊢
+    split_ifs at hpos ⊢ with h1 h2
+    · dsimp only at hpos ⊢
+      constructor
+      · intro hc; cases hc
+      · intro hc; omega
+    · dsimp only at hpos ⊢
+      have hz : gsum s b upd x.id = 0 := by omega
+      rw [hz] at hpos ⊢
+      simp only [Int.add_zero] at hpos ⊢
+      exact hfx hpos
+    · exact hfx hpos
+
+/-! ### sums over the counter log -/
+
+theorem nodup_eraseDups {α : Type} [BEq α] [LawfulBEq α] : ∀ (n : Nat) (l : List α), l.length ≤ n → l.eraseDups.Nodup := by
+  intro n
+  induction n with
+  | zero => intro l hl; have : l = [] := List.length_eq_zero_iff.mp (by omega); subst this; simp
+  | succ n ih =>
+    intro l hl
+    cases l with
+    | nil => simp
+    | cons a as =>
+      rw [List.eraseDups_cons, List.nodup_cons]
+      refine ⟨?_, ih _ ?_⟩
+      · intro hm
+        rw [List.mem_eraseDups, List.mem_filter] at hm
+        simp at hm
+      · have := List.length_filter_le (fun b => !b == a) as
+        simp only [List.length_cons] at hl
+        omega
+
+/-- sum of the entries whose key satisfies `P` -/
+def sumP (P : CKey → Bool) (m : List (CKey × Int)) : Int := ((m.filter fun e => P e.1).map (·.2)).sum
+
+theorem sum_indicator (ks : List CKey) (hnd : ks.Nodup) (a : CKey) (c : Int) :
+    (ks.map fun k => if a = k then c else 0).sum = if a ∈ ks then c else 0 := by
+  induction ks with
+  | nil => simp
+  | cons k ks ih =>
+    rw [List.nodup_cons] at hnd
+    simp only [List.map_cons, List.sum_cons, ih hnd.2, List.mem_cons]
+    by_cases h : a = k
+    · subst h; simp [hnd.1]
+    · simp [h]
+
+theorem sum_map_add {α : Type} (l : List α) (f g : α → Int) :
+    (l.map fun x => f x + g x).sum = (l.map f).sum + (l.map g).sum := by
+  induction l with
+  | nil => simp
+  | cons x l ih => simp only [List.map_cons, List.sum_cons, ih]; omega
+
+/-- regrouping a sum by key: summing `get m k` over a duplicate-free list of keys that covers the `P`-keys of `m` -/
+theorem sumP_keys (P : CKey → Bool) (ks : List CKey) (hnd : ks.Nodup) : ∀ (m : List (CKey × Int)),
+    (∀ e ∈ m, P e.1 = true → e.1 ∈ ks) → ((ks.filter P).map fun k => get m k).sum = sumP P m := by
+  intro m
+  induction m with
+  | nil =>
+    intro _
+    have : ∀ l : List CKey, (l.map fun _ => (0:Int)).sum = 0 := by intro l; induction l <;> simp_all
+    simp [sumP, get_nil, this]
+  | cons e m ih =>
+    intro hcov
+    have ih' := ih (fun x hx => hcov x (List.mem_cons_of_mem _ hx))
+    have hfun : (fun k => get (e :: m) k) = fun k => (if e.1 = k then e.2 else 0) + get m k := by
+      funext k; exact get_cons e m k
+    rw [hfun, sum_map_add, ih', sum_indicator _ (hnd.filter _)]
+    unfold sumP
+    by_cases hp : P e.1 = true
+    · have : e.1 ∈ ks.filter P := List.mem_filter.mpr ⟨hcov e (by simp) hp, hp⟩
+      simp [hp, this]
+    · have : e.1 ∉ ks.filter P := fun h => hp (List.mem_filter.mp h).2
+      simp [hp, this]
+
+theorem sumP_compact (P : CKey → Bool) (s : State) : sumP P (compact s).1.ctr = sumP P s.ctr := by
+  have hnd : ((s.ctr.map (·.1)).eraseDups).Nodup := nodup_eraseDups _ _ (Nat.le_refl _)
+  rw [← sumP_keys P _ hnd s.ctr (by intro e he _; rw [List.mem_eraseDups]; exact List.mem_map.mpr ⟨e, he, rfl⟩)]
+  unfold compact sumP
+  dsimp only
+  rw [List.filter_map, List.map_map]
+  rfl
+
+theorem gsum_eq_sumP (s : State) (b u g : Nat) : gsum s b u g = sumP (isSJobs b u g) s.ctr := rfl
+
+
+theorem sumP_append (P : CKey → Bool) (a b : List (CKey × Int)) : sumP P (a ++ b) = sumP P a + sumP P b := by
+  simp [sumP, List.filter_append, List.sum_append]
+
+theorem sumP_flatMap {α : Type} (P : CKey → Bool) (l : List α) (f : α → List (CKey × Int)) :
+    sumP P (l.flatMap f) = (l.map fun x => sumP P (f x)).sum := by
+  induction l with
+  | nil => simp [sumP]
+  | cons x l ih => simp only [List.flatMap_cons, sumP_append, ih, List.map_cons, List.sum_cons]
+
+theorem length_filter_eq_sum {α : Type} (l : List α) (p : α → Bool) :
+    ((l.filter p).length : Int) = (l.map fun x => if p x then (1 : Int) else 0).sum := by
+  induction l with
+  | nil => simp
+  | cons x l ih =>
+    by_cases h : p x <;> simp [List.filter_cons, h, ih] <;> omega
+
+theorem sum_indicator_nat (l : List Nat) (hnd : l.Nodup) (g : Nat) :
+    (l.map fun a => if a = g then (1 : Int) else 0).sum = if l.contains g then 1 else 0 := by
+  induction l with
+  | nil => simp
+  | cons a l ih =>
+    rw [List.nodup_cons] at hnd
+    simp only [List.map_cons, List.sum_cons, ih hnd.2, List.contains_cons]
+    by_cases h : a = g
+    · subst h
+      simp [hnd.1]
+    · have : (g == a) = false := by simpa using fun h' => h h'.symm
+      simp [h, this]
+
+/-! ### the staging invariant -/
+
+/-- job `j` belongs to batch `b` and lies under group `g` (its group has `g` among its ancestors-or-self) -/
+def under (s : State) (b g : Nat) (j : Job) : Bool := decide (j.batch = b) && (ancestorsOf s b j.group).contains g
+
+/-- number of inserted jobs of update `(b, u)` under group `g` -/
+def stagedCount (s : State) (b u g : Nat) : Int :=
+  ((s.jobs.filter fun j => under s b g j && decide (j.update = u)).length : Int)
+
+/-- **Staging invariant**: for every update that is not committed and every group, the staged `n_jobs` (summed over
+inst_colls) is the number of job rows of that update under the group -/
+def StagingExact (s : State) : Prop := ∀ b u g, updCommitted s b u = false → gsum s b u g = stagedCount s b u g
+
+/-- every job's group row exists -/
+def JobsGroupOK (s : State) : Prop := ∀ j ∈ s.jobs, (findGroup s j.batch j.group).isSome
+
+
+theorem ancestorsOf_shape' {s s' : State} (h : Shape s s') {b g : Nat} (hx : (findGroup s b g).isSome) :
+    ancestorsOf s' b g = ancestorsOf s b g := by
+  obtain ⟨x, hx⟩ := Option.isSome_iff_exists.mp hx
+  obtain ⟨x', hx', ha, -⟩ := findGroup_shape h b g x hx
+  unfold ancestorsOf; rw [hx, hx']; exact ha
+
+theorem findGroup_isSome_shape {s s' : State} (h : Shape s s') {b g : Nat} (hx : (findGroup s b g).isSome) :
+    (findGroup s' b g).isSome := by
+  obtain ⟨x, hx⟩ := Option.isSome_iff_exists.mp hx
+  obtain ⟨x', hx', -⟩ := findGroup_shape h b g x hx
+  rw [hx']; rfl
+
+theorem stagedCount_of_mapped {s s' : State} (h : Shape s s') {F : Job → Job} (hF : JobFrame F)
+    (e : s'.jobs = s.jobs.map F) (hg : JobsGroupOK s) (b u g : Nat) : stagedCount s' b u g = stagedCount s b u g := by
+  unfold stagedCount
+  rw [e, List.filter_map, List.length_map]
+  congr 2
+  apply List.filter_congr
+  intro j hj
+  obtain ⟨a1, -, a3, a4, -⟩ := hF j
+  simp only [Function.comp, under, a1, a3, a4]
+  by_cases hb : j.batch = b
+  · have := hg j hj
+    rw [hb] at this
+    rw [ancestorsOf_shape' h this]
+  · simp [hb]
+
+theorem jobsGroupOK_of_mapped {s s' : State} (h : Shape s s') {F : Job → Job} (hF : JobFrame F)
+    (e : s'.jobs = s.jobs.map F) (hg : JobsGroupOK s) : JobsGroupOK s' := by
+  intro j' hj'
+  rw [e, List.mem_map] at hj'
+  obtain ⟨j, hj, rfl⟩ := hj'
+  rw [(hF j).1, (hF j).2.2.2.1]
+  exact findGroup_isSome_shape h (hg j hj)
+
+theorem updCommitted_mono (s : State) (op : Op) (b u : Nat) (h : updCommitted (step s op).1 b u = false) :
+    updCommitted s b u = false := by
+  unfold updCommitted at *
+  cases hf : findUpdate s b u with
+  | none => rfl
+  | some x =>
+    obtain ⟨x', hx', hs⟩ := findUpdate_step s op hf
+    rw [hx'] at h
+    simp only at h ⊢
+    cases hc : x.committed with
+    | false => rfl
+    | true => rw [hs.2.2.2.2.2.2.2 hc] at h; exact h
+
+/-- job rows are rewritten in place by every transaction other than `insertJobs` -/
+theorem jobsMapped_step (s : State) (op : Op) (h2 : ∀ b u usr specs, op ≠ .insertJobs b u usr specs) :
+    ∃ F, JobFrame F ∧ (step s op).1.jobs = s.jobs.map F := by
+  by_cases h1 : ∃ b t nj ng u, op = .createUpdate b t nj ng u
+  · obtain ⟨b, t, nj, ng, u, rfl⟩ := h1
+    exact ⟨id, JobFrame.id, by rw [List.map_id]; exact (createUpdate_jobs_parents s b t nj ng u).1⟩
+  · exact (quiet_step s op (fun b t nj ng u e => h1 ⟨b, t, nj, ng, u, e⟩) h2).jobs
+
+/-- the staging `n_jobs` cells change only through `insertJobs`, `cleanupStaging` and `compact` -/
+theorem staging_step (s : State) (op : Op) (h1 : ∀ b u usr specs, op ≠ .insertJobs b u usr specs)
+    (h2 : op ≠ .cleanupStaging) (h3 : op ≠ .compact) : stagingLog (step s op).1 = stagingLog s := by
+  cases op with
+  | createBatch u bp t =>
+    simp only [step]; unfold createBatch; split <;> rfl
+  | createUpdate b t nj ng u => exact (calm_createUpdate s b t nj ng u).staging
+  | insertGroups b u usr specs =>
+    simp only [step]
+    rcases insertGroups_cases s b u usr specs with ⟨e, he⟩ | ⟨_, _, _, _, new, _, _, _, _, _, _, _, e, _⟩ <;> rw [‹insertGroups s b u usr specs = _›] <;> rfl
+  | insertJobs b u usr specs => exact absurd rfl (h1 b u usr specs)
+  | commitUpdate b upd =>
+    simp only [step]
+    rcases commitUpdate_cases s b upd with ⟨o, e, _⟩ | ⟨u, hu, hc, ho, _⟩
+    · rw [e]
+    · obtain ⟨h1, h2⟩ := commitUpdate_effect s b upd u hu hc
+      by_cases hst : stagedRoot s b upd = u.nJobs
+      · obtain ⟨-, -, h0, hn⟩ := h2 hst
+        by_cases hz : u.nJobs = 0
+        · unfold stagingLog; rw [(h0 hz).2.2.1]
+        · exact (hn hz).2.2
+      · rw [h1 hst]
+  | cancelGroup b g => exact (calm_cancelGroup s b g).staging
+  | deleteBatch b => exact (calm_deleteBatch s b).staging
+  | newInstance n c p => exact (calm_newInstance s n c p).staging
+  | activate n => exact (calm_activate s n).staging
+  | deactivate n r ts d => exact (calm_deactivate s n r ts d).staging
+  | markDeleted n => exact (calm_markDeleted s n).staging
+  | schedule b j a i => exact (calm_schedule s b j a i).staging
+  | creating b j a i ts d => exact (calm_startLike s b j a i ts d _ _).staging
+  | started b j a i ts d => exact (calm_startLike s b j a i ts d _ _).staging
+  | complete b j a i ns st e r d => exact staging_complete s b j a i ns st e r d
+  | unschedule b j a i e r d => exact (calm_unschedule s b j a i e r d).staging
+  | addResources b j a res d => exact (calm_addResources s b j a res d).staging
+  | heartbeat atts ts d => simp only [step, heartbeat]; exact (calm_updateAttempts s d _ _).staging
+  | cleanupStaging => exact absurd rfl h2
+  | cleanupCancellable => exact (calm_cleanupCancellable s).staging
+  | compact => exact absurd rfl h3
 
 end HailVerif.BatchDB.Submission
